@@ -12,6 +12,7 @@ import (
 	"go/ast"
 	"go/token"
 	"go/types"
+	"math"
 	"path"
 	"sort"
 	"strconv"
@@ -464,6 +465,26 @@ func annoScenarios(b *scenario) []*scenario {
 	}
 }
 
+// cmdDefaults: the default of every flag as `gofasta <command> --help` documents it (-1 = no window / no wrapping,
+// "stdin"/"stdout" = the standard streams). A default is part of the command line a user relies on: with no option
+// given, the run must be the documented one.
+var cmdDefaults = map[string]map[string]interface{}{
+	"closest": {"threads": int64(0), "query": "", "target": "", "measure": "raw", "number": int64(0), "max-dist": "", "outfile": "stdout", "table": false},
+	"snps":    {"reference": "", "query": "stdin", "outfile": "stdout", "hard-gaps": false, "aggregate": false, "threshold": 0.0},
+	"sam toMultiAlign": {"threads": int64(1), "samfile": "stdin", "reference": "", "start": int64(-1), "end": int64(-1), "pad": false, "fasta-out": "stdout", "wrap": int64(-1),
+		"trim": false, "trimstart": int64(-1), "trimend": int64(-1)},
+	"sam toPairAlign": {"threads": int64(1), "samfile": "stdin", "reference": "", "outpath": "", "omit-reference": false, "skip-insertions": false, "start": int64(-1), "end": int64(-1), "wrap": int64(-1)},
+	"sam variants": {"threads": int64(1), "samfile": "stdin", "reference": "", "annotation": "", "outfile": "stdout", "start": int64(-1), "end": int64(-1), "aggregate": false,
+		"threshold": 0.0, "append-snps": false, "genbank": ""},
+	"sam indels": {"threads": int64(1), "samfile": "stdin", "insertions-out": "insertions.txt", "deletions-out": "deletions.txt", "threshold": int64(2)},
+	"variants": {"msa": "stdin", "reference": "", "annotation": "", "outfile": "stdout", "start": int64(-1), "end": int64(-1), "aggregate": false, "threshold": 0.0,
+		"append-snps": false, "threads": int64(1), "genbank": ""},
+	"updown list": {"reference": "", "query": "stdin", "outfile": "stdout"},
+	"updown topranking": {"query": "", "target": "", "outfile": "stdout", "table": false, "reference": "", "ignore": "", "dist-all": int64(0), "dist-up": int64(0), "dist-down": int64(0),
+		"dist-side": int64(0), "size-total": int64(0), "size-up": int64(0), "size-down": int64(0), "size-side": int64(0), "size-same": int64(0), "threshold-pair": 0.1,
+		"threshold-target": int64(10000), "dist-push": int64(0), "no-fill": false},
+}
+
 var cmdSpecs = []cmdSpec{
 	{
 		path: "snps", props: []string{"C03", "C13"},
@@ -611,7 +632,7 @@ var cmdSpecs = []cmdSpec{
 		},
 	},
 	{
-		path: "variants", props: []string{"C04", "C11", "C13", "C14", "C15"},
+		path: "variants", props: []string{"C04", "C05", "C11", "C13", "C14", "C15"},
 		special: func(b *scenario) []*scenario {
 			return append(annoScenarios(b),
 				b.clone("no --reference (taken from the annotation)").set("reference", ""),
@@ -1159,6 +1180,33 @@ func checkCmdContract(c *core.Ctx, rule string, paths ...string) {
 				}
 			}
 			c.Ob(key+"/value-flags-take-their-value", len(badNo) == 0, node.pos, "%s", first(badNo, 3))
+		}
+		// with no option given, the run is the documented one: every flag has its documented default
+		if defs := cmdDefaults[spec.path]; defs != nil {
+			var badDef []string
+			have := map[string]*cmdFlag{}
+			for _, f := range node.visible() {
+				have[f.name] = f
+			}
+			var names []string
+			for name := range defs {
+				names = append(names, name)
+			}
+			sort.Strings(names)
+			for _, name := range names {
+				f := have[name]
+				switch {
+				case f == nil:
+					badDef = append(badDef, fmt.Sprintf("--%s is not a flag of this command any more", name))
+				case f.kind == "float32":
+					if math.Abs(f.def.(float64)-defs[name].(float64)) > 1e-6 {
+						badDef = append(badDef, fmt.Sprintf("%s: --%s defaults to %v, documented default %v", c.PosStr(f.pos), name, f.def, defs[name]))
+					}
+				case f.def != defs[name]:
+					badDef = append(badDef, fmt.Sprintf("%s: --%s defaults to %v, documented default %v", c.PosStr(f.pos), name, f.def, defs[name]))
+				}
+			}
+			c.Ob(key+"/documented-defaults", len(badDef) == 0, node.pos, "%s", first(badDef, 3))
 		}
 		var badArgs, badErr, badEntryErr, undecided []string
 		for _, sc := range scenariosFor(node, spec) {
